@@ -267,6 +267,8 @@ class ClientDriver:
         self.trace = []
         self.loads_table = []
         self.nested = None          # frame the next EVENT handler body delivers before it returns (op 'msg_nested')
+        self.ack_again = None       # frame the next ack callback re-delivers once from inside itself (op 'ack_nested')
+        self.mid_dump = None
         log = logging.getLogger('verif.null')
         log.addHandler(logging.NullHandler())
         log.propagate = False
@@ -361,13 +363,30 @@ class ClientDriver:
             self.sio.register_namespace(cls(ns))
 
     def callback(self, cb):
+        """Ack callback.  When the driver has armed `self.ack_again`, the callback re-delivers that frame from inside
+        itself, once: this is how a duplicate ACK that is processed while the first invocation is still running
+        (engine.io dispatches every message in its own thread / task) is produced deterministically."""
         drv = self
+
+        def redeliver():
+            if drv.ack_again is None:
+                return None
+            p, drv.ack_again = drv.ack_again, None
+            drv.mid_dump = drv.dump()
+            drv.trace.append(('NestedStart',))
+            return drv.eio.receive(p)
         if self.coro:
             async def f(*args):
                 drv.trace.append(('CbCall', cb, tuple(_copy(list(args)))))
+                r = redeliver()
+                if inspect.isawaitable(r):
+                    await r
         else:
             def f(*args):
                 drv.trace.append(('CbCall', cb, tuple(_copy(list(args)))))
+                r = redeliver()
+                if inspect.isawaitable(r):      # plain callback on the asyncio client: never armed (see run_history)
+                    r.close()
         return f
 
     def _auth(self, auth, is_callable):
@@ -401,6 +420,20 @@ class ClientDriver:
                 eio.contained.append(('escaped', coqio.exn_name(e)))
             tables = self.loads_table
             self.nested = None
+        elif k == 'ack_nested':
+            # the frame is delivered, and delivered AGAIN from inside the ack callback it triggers
+            self.ack_again, self.mid_dump = _copy(o[1]), None
+            try:
+                await aw(eio.receive(_copy(o[1])))
+                if self.ack_again is not None:      # no callback ran: the duplicate arrives afterwards
+                    self.ack_again = None
+                    self.mid_dump = self.dump()
+                    self.trace.append(('NestedStart',))
+                    await aw(eio.receive(_copy(o[1])))
+            except BaseException as e:
+                self.trace.append(('Raised', 'OtherError'))
+                eio.contained.append(('escaped', coqio.exn_name(e)))
+            tables = self.loads_table
         elif k == 'loss':
             await aw(eio.lose())
         elif k == 'server_close':
@@ -458,15 +491,37 @@ class ClientDriver:
                 'callbacks': cbs, 'binpkt_none': sio._binary_packet is None, 'sid': sio.sid, 'eio': self.eio.state}
 
 
+def expand_ops(ops):
+    """The operation list as the Coq model sees it: ('ack_nested', frame) is the same frame twice.  In the model
+    the nested delivery is simply the same message delivered right after: invoking the callback is the LAST thing
+    _handle_ack does (client.py: `callback(*data)`, async_client.py: `await callback(*data)` / `callback(*data)`;
+    nothing follows it in _handle_ack nor in _handle_eio_message), so the nested run sees exactly the state the
+    sequential run sees."""
+    out = []
+    for o in ops:
+        if o[0] == 'ack_nested':
+            out += [('msg', o[1]), ('msg', o[1])]
+        else:
+            out.append(o)
+    return out
+
+
 def run_history(cfg, ops, mode='sync', coro=False):
-    """Returns the list of (effects, tables, dump) per operation."""
-    if any(o[0] == 'msg_nested' for o in ops):
-        coro = True         # the nested delivery has to be awaited inside the handler on the asyncio client
+    """Returns the list of (effects, tables, dump) per operation of expand_ops(ops)."""
+    if any(o[0] in ('msg_nested', 'ack_nested') for o in ops):
+        coro = True         # nested deliveries have to be awaited inside the handler / callback on the asyncio client
+
     async def main():
         d = ClientDriver(cfg, mode, coro)
         out = []
         for o in ops:
-            out.append(await d.op(o))
+            effs, tbl, dump = await d.op(o)
+            if o[0] == 'ack_nested':
+                cut = effs.index(('NestedStart',)) if ('NestedStart',) in effs else len(effs)
+                out.append((effs[:cut], tbl, d.mid_dump if d.mid_dump is not None else dump))
+                out.append((effs[cut + 1:], tbl, dump))
+            else:
+                out.append((effs, tbl, dump))
         return out
     return asyncio.run(main())
 
@@ -598,6 +653,7 @@ def c_dump(d):
 
 
 def ccase_term(cfg, ops, results):
+    ops = expand_ops(ops)
     ops_t = [c_op(o, tbl) for o, (_, tbl, _) in zip(ops, results)]
     obs_t = ['(%s, %s)' % (clist([c_eff(e) for e in effs]), c_dump(dump)) for effs, _, dump in results]
     return '(mkCase %s %s %s)' % (c_cfg(cfg), clist(ops_t), clist(obs_t))
@@ -605,6 +661,7 @@ def ccase_term(cfg, ops, results):
 
 def xcase_term(cfg, ops, results):
     """The same history in the extended vocabulary of Client/ClientX.v (plain operations wrapped)."""
+    ops = expand_ops(ops)
     ops_t = [c_op(o, tbl) if o[0] == 'msg_nested' else '(Plain %s)' % c_op(o, tbl) for o, (_, tbl, _) in zip(ops, results)]
     obs_t = ['(%s, %s)' % (clist([c_eff(e) for e in effs]), c_dump(dump)) for effs, _, dump in results]
     return '(mkXCase %s %s %s)' % (c_cfg(cfg), clist(ops_t), clist(obs_t))
